@@ -275,6 +275,21 @@ def run_c11(cfg: HCfg, c: Ctx) -> Any:
 # ------------------------------------------------------------------------------------------------ C15
 @watchdog(lambda cfg: "C15")
 def run_c15(cfg: HCfg, c: Ctx) -> Any:
+    # (scratch files of a path are removed however the path ends: a fork of the engine aborts the execution)
+    box: Dict[str, str] = {}
+    try:
+        return _run_c15_body(cfg, c, box)
+    finally:
+        import shutil
+
+        for pth in box.values():
+            if os.path.isdir(pth):
+                shutil.rmtree(pth, ignore_errors=True)
+            elif os.path.exists(pth):
+                os.unlink(pth)
+
+
+def _run_c15_body(cfg: HCfg, c: Ctx, box: Dict[str, str]) -> Any:
     from tawazi import Resource, dag, xn
     from tawazi.errors import TawaziBaseException, TawaziUsageError
 
@@ -349,8 +364,7 @@ def run_c15(cfg: HCfg, c: Ctx) -> Any:
     ex_sel: Optional[str] = None
     ex_badcache = False
     ex_state = "none"  # none | fresh | succeeded | failed
-    fd, bad_parent = tempfile.mkstemp(prefix="sxc15")
-    os.close(fd)
+    bad_parent = ""
     for step, op in enumerate(hist):
         A, B = c.val("a%d" % step), c.val("b%d" % step)
         entered.clear()
@@ -397,6 +411,10 @@ def run_c15(cfg: HCfg, c: Ctx) -> Any:
             if arg == "!cache":
                 # an executor whose cache file cannot be written (the parent of the path is a regular file): the run fails
                 # after its nodes ran, at the point where the results are stored
+                if not bad_parent:
+                    fd, bad_parent = tempfile.mkstemp(prefix="sxc15")
+                    os.close(fd)
+                    box["bad_parent"] = bad_parent
                 ex = d.executor(cache_in=os.path.join(bad_parent, "cache.pkl"))
                 ex_sel = None
                 ex_badcache = True
@@ -479,12 +497,6 @@ def run_c15(cfg: HCfg, c: Ctx) -> Any:
             c.check(out[0] == "value", "setup(target_nodes=[%s]) raised %r on a DAG without setup nodes" % (arg, out[1]), prop="C15", data=d2)
             c.check(not entered, "setup(target_nodes=[%s]) ran %s on a DAG without setup nodes" % (arg, entered), prop="C15", data=d2)
             c.cover("w_setup_op")
-    import shutil
-
-    if os.path.isdir(bad_parent):
-        shutil.rmtree(bad_parent, ignore_errors=True)
-    elif os.path.exists(bad_parent):
-        os.unlink(bad_parent)
     if cfg.twin:
         c.check(False, "reachability twin: the end of the harness is reachable", prop="TWIN")
     c.cover("states", hash(repr(data)))
@@ -973,14 +985,9 @@ def run_c18(cfg: HCfg, c: Ctx) -> Any:
                     prop="C18", data={**data, "first": first[0], "later": later[0]})
             c.cover("w_foreign_cache")
     finally:
-        try:
-            os.unlink(path)
-        except OSError:
-            pass
-        try:
-            os.rmdir(tmp)
-        except OSError:
-            pass
+        import shutil
+
+        shutil.rmtree(tmp, ignore_errors=True)
     if cfg.twin:
         c.check(False, "reachability twin: the end of the harness is reachable", prop="TWIN")
     c.cover("states", hash(repr(data)))
